@@ -158,6 +158,29 @@ type c10Walker struct {
 	indexes map[string]bool
 	nlit    int
 	lits    []c10Lit
+
+	// used by shapesdeferred.go
+	isRoot    func(typeName string) bool // which parameter types make a function literal a function of its own (default: client types)
+	flows     map[string]bool            // calls the root value flows into (nil: not recorded)
+	localName string                     // a local variable that becomes the root where it is declared
+	localType string
+}
+
+func (w *c10Walker) rootType(tn string) bool {
+	if w.isRoot != nil {
+		return w.isRoot(tn)
+	}
+	return c10IsClientType(tn)
+}
+
+// declared: a declaration of the tracked local brings it into scope.
+func (w *c10Walker) declared(s *c10Scope, name string, typ string, ptr bool) bool {
+	if w.localName == "" || name != w.localName || typ != w.localType {
+		return false
+	}
+	s.vars[name] = c10Val{typ: typ, ptr: false}
+	_ = ptr
+	return true
 }
 
 type c10Lit struct {
@@ -245,7 +268,7 @@ func (w *c10Walker) expr(s *c10Scope, e ast.Expr) {
 		// own client-message parameter => analysed as a function of its own
 		for _, fl := range x.Type.Params.List {
 			tn, ptr := c10TypeName(fl.Type)
-			if _, known := w.types[tn]; known && ptr && c10IsClientType(tn) && len(fl.Names) == 1 {
+			if _, known := w.types[tn]; known && ptr && w.rootType(tn) && len(fl.Names) == 1 {
 				w.nlit++
 				w.lits = append(w.lits, c10Lit{name: fmt.Sprintf("%s.func%d", w.fn, w.nlit), lit: x, par: fl.Names[0].Name, typ: tn})
 				return
@@ -271,6 +294,22 @@ func (w *c10Walker) expr(s *c10Scope, e ast.Expr) {
 		w.expr(s, x.X)
 		w.expr(s, x.Y)
 	case *ast.CallExpr:
+		if w.flows != nil {
+			into := false
+			if sel, ok := x.Fun.(*ast.SelectorExpr); ok {
+				if v, ok := w.resolve(s.clone(), sel.X); ok && len(v.path) == 0 {
+					into = true
+				}
+			}
+			for _, a := range x.Args {
+				if v, ok := w.resolve(s.clone(), a); ok && len(v.path) == 0 {
+					into = true
+				}
+			}
+			if callee := c10Src(w.c.fset, x.Fun); into && !strings.HasPrefix(callee, "log.") && !strings.HasPrefix(callee, "fmt.") {
+				w.flows[w.fn+"|"+c10Src(w.c.fset, x.Fun)] = true
+			}
+		}
 		w.expr(s, x.Fun)
 		for _, a := range x.Args {
 			w.expr(s, a)
@@ -411,6 +450,9 @@ func (w *c10Walker) assign(s *c10Scope, lhs []ast.Expr, rhs []ast.Expr) {
 	}
 	if len(lhs) == 1 && len(rhs) == 1 {
 		if id, ok := lhs[0].(*ast.Ident); ok {
+			if t, ok := c10LocalInit(rhs[0]); ok && w.declared(s, id.Name, t, false) {
+				return
+			}
 			if v, ok := w.resolve(s.clone(), rhs[0]); ok {
 				s.vars[id.Name] = v
 				return
@@ -447,6 +489,12 @@ func (w *c10Walker) stmt(s *c10Scope, st ast.Stmt) {
 						lhs = append(lhs, n)
 					}
 					w.assign(s, lhs, vs.Values)
+					if vs.Type != nil && len(vs.Values) == 0 {
+						tn, ptr := c10TypeName(vs.Type)
+						for _, n := range vs.Names {
+							w.declared(s, n.Name, tn, ptr)
+						}
+					}
 				}
 			}
 		}
@@ -1002,7 +1050,139 @@ func genShapesClient(c *ctx) *leanFile {
 	l.raw("def typeAssertions : List (String × String) := " + c10Lean(c10Sorted(asserts), 2))
 	l.fact("indexExprs")
 	l.raw("def indexExprs : List (String × String) := " + c10Lean(c10Sorted(indexes), 2))
+
+	// ---- uses of the (nil) result of a failed comma-ok type assertion ----
+	var failed []string
+	for _, rel := range c10DeferredFiles(c) {
+		f := c.file(rel)
+		if f == nil {
+			continue
+		}
+		for _, d := range f.Decls {
+			if fd, ok := d.(*ast.FuncDecl); ok && fd.Body != nil {
+				failed = append(failed, c10FailedAssertionUses(c, c10FuncName(fd), fd.Body)...)
+			}
+		}
+	}
+	if ff := c.file("federation.go"); ff != nil {
+		for _, d := range ff.Decls {
+			if fd, ok := d.(*ast.FuncDecl); ok && fd.Body != nil {
+				failed = append(failed, c10FailedAssertionUses(c, c10FuncName(fd), fd.Body)...)
+			}
+		}
+	}
+	sort.Strings(failed)
+	l.fact("failedAssertionUses")
+	l.raw("/-- (function, selector expression): `x, ok := e.(T)` with a pointer or named type, and `x.<sel>` used on the\npath where `ok` is false (x is nil there: a method call or field access panics). Whole root package\nexcept the media code. -/")
+	l.raw("def failedAssertionUses : List (String × String) := " + c10Lean(failed, 2))
 	return l
+}
+
+// c10FailedAssertionUses: `x, ok := e.(T)` (as a statement or as the init of an `if`) and a use `x.<sel>` in
+// the branch taken when ok is false.
+func c10FailedAssertionUses(c *ctx, fn string, body *ast.BlockStmt) []string {
+	var out []string
+	nilable := func(t ast.Expr) bool {
+		switch x := t.(type) {
+		case *ast.StarExpr:
+			return true
+		case *ast.Ident:
+			switch x.Name {
+			case "string", "bool", "int", "int8", "int16", "int32", "int64", "uint", "uint8", "uint16", "uint32", "uint64",
+				"float32", "float64", "byte", "rune", "uintptr", "complex64", "complex128":
+				return false
+			}
+			return true // a named type: may be an interface
+		case *ast.SelectorExpr, *ast.InterfaceType:
+			return true
+		}
+		return false
+	}
+	commaOk := func(st ast.Stmt) (x, ok string) {
+		as, isAs := st.(*ast.AssignStmt)
+		if !isAs || len(as.Lhs) != 2 || len(as.Rhs) != 1 {
+			return "", ""
+		}
+		ta, isTa := as.Rhs[0].(*ast.TypeAssertExpr)
+		if !isTa || ta.Type == nil || !nilable(ta.Type) {
+			return "", ""
+		}
+		xi, ok1 := as.Lhs[0].(*ast.Ident)
+		oi, ok2 := as.Lhs[1].(*ast.Ident)
+		if !ok1 || !ok2 || xi.Name == "_" || oi.Name == "_" {
+			return "", ""
+		}
+		return xi.Name, oi.Name
+	}
+	uses := func(x string, n ast.Node) {
+		if n == nil {
+			return
+		}
+		reassigned := false
+		ast.Inspect(n, func(m ast.Node) bool {
+			if reassigned {
+				return false
+			}
+			switch y := m.(type) {
+			case *ast.AssignStmt:
+				for _, l := range y.Lhs {
+					if isIdent(l, x) {
+						reassigned = true
+					}
+				}
+			case *ast.SelectorExpr:
+				if isIdent(y.X, x) {
+					out = append(out, fn+"|"+c10Src(c.fset, y))
+				}
+			}
+			return true
+		})
+	}
+	// the branch of `if` taken when `okName` is false
+	failedBranch := func(is *ast.IfStmt, x, okName string) bool {
+		if u, isU := is.Cond.(*ast.UnaryExpr); isU && u.Op == token.NOT && isIdent(u.X, okName) {
+			uses(x, is.Body)
+			return true
+		} else if isIdent(is.Cond, okName) {
+			if is.Else != nil {
+				uses(x, is.Else)
+			}
+			return true
+		}
+		return false
+	}
+	ast.Inspect(body, func(n ast.Node) bool {
+		switch b := n.(type) {
+		case *ast.BlockStmt:
+			for i, st := range b.List {
+				if x, okName := commaOk(st); x != "" {
+					for _, later := range b.List[i+1:] {
+						if is, isIf := later.(*ast.IfStmt); isIf && is.Init == nil && failedBranch(is, x, okName) {
+							break
+						}
+					}
+				}
+			}
+		case *ast.CaseClause:
+			for i, st := range b.Body {
+				if x, okName := commaOk(st); x != "" {
+					for _, later := range b.Body[i+1:] {
+						if is, isIf := later.(*ast.IfStmt); isIf && is.Init == nil && failedBranch(is, x, okName) {
+							break
+						}
+					}
+				}
+			}
+		case *ast.IfStmt:
+			if b.Init != nil {
+				if x, okName := commaOk(b.Init); x != "" {
+					failedBranch(b, x, okName)
+				}
+			}
+		}
+		return true
+	})
+	return out
 }
 
 // c10IsLiteralMapper: func f(x string) string { switch x { case "a", "b": return x; default: return "lit" } }
